@@ -29,6 +29,8 @@ def configs(tier):
     q = tier == 'quick'
     out = [{'rows': r, 'centre': c, 'cut': False} for r in range(3, (4 if q else 5) + 1) for c in ('peak', 'trough')]
     out += [{'rows': r, 'centre': c, 'cut': True} for r in range(3, (6 if q else 8) + 1) for c in ('peak', 'trough')]
+    # the object API: Bycycle.recompute_edges(r) = the functional recomputation with every *_threshold lowered by r
+    out += [{'rows': r, 'centre': 'peak', 'cut': True, 'api': 'obj'} for r in (3, 4)]
     return out
 
 
@@ -96,7 +98,17 @@ def run(ctx, cfg):
         fb.compute_amp_consistency = recorder('ac')
         fb.compute_period_consistency = recorder('pc')
     try:
-        out = bu.recompute_edges(df, kw1)
+        if cfg.get('api') == 'obj':
+            red = ctx.real('reduction')
+            ctx.assume(red >= 0)
+            stored = {c + '_threshold': thr1[c] + red for c in COLS}     # lowered by the reduction these are thr1
+            stored['min_n_cycles'] = m1
+            bm = ctx.mod('bycycle.objs.fit').Bycycle(thresholds=stored)
+            bm.load(df, ctx.np.zeros(3), 500.0, (8.0, 12.0))
+            bm.recompute_edges(red)
+            out = bm.df_features
+        else:
+            out = bu.recompute_edges(df, kw1)
     except Exception as e:
         ctx.fail(exc_label(e))
         return
